@@ -160,7 +160,8 @@ pub fn eval_batch(hs: &[FHist]) -> Result<Vec<CaseOut>, String> {
 
 fn name_strategy(class: u8) -> BoxedStrategy<String> {
     let unit: &'static str = match class {
-        0 => "[a-zA-Z0-9 ._+-]",
+        // incl. the punctuation pairs that differ only in bit 5 like upper / lower case letters do: @ `  [ {  ] }  ^ ~
+        0 => "[a-zA-Z0-9 ._+@`\\[\\]{}^~-]",
         1 => "[一-鿿ぁ-ん0-9a-z ._]",
         _ => "[a-zA-Zà-öø-ÿßΑ-Ωα-ω ._]",
     };
@@ -216,15 +217,18 @@ fn hist_strategy() -> impl Strategy<Value = FHist> {
                 let n1 = names[a as usize % names.len()].clone();
                 let n2 = names[b as usize % names.len()].clone();
                 let variant = |s: &str, sel: u8| -> String {
-                    match sel % 4 {
+                    match sel % 5 {
                         0 => s.to_string(),
                         1 => s.to_uppercase(),
                         2 => s.to_lowercase(),
+                        // NOT a case variant: punctuation with bit 5 flipped must name a different entry in every build
+                        3 => s.chars().map(|c| if "@`[{]}^~".contains(c) { (c as u8 ^ 0x20) as char } else { c }).collect(),
                         _ => s.to_string(),
                     }
                 };
                 ops.push(match k % 16 {
-                    0..=3 => FOp::CreateFile(n1),
+                    0..=2 => FOp::CreateFile(n1),
+                    3 => FOp::CreateFile(if class == 0 { variant(&n1, 3) } else { n1 }),
                     4..=5 => FOp::CreateDir(n1),
                     6..=7 => FOp::OpenFile(if class == 1 { n1 } else { variant(&n1, b) }),
                     8 => FOp::OpenDir(if class == 1 { n1 } else { variant(&n1, b) }),
